@@ -4,7 +4,19 @@ import random
 
 _real_listdir = os.listdir
 _real_scandir = os.scandir
-_state = {"seed": None, "orders": set(), "calls": 0}
+_state = {"seed": None, "orders": set(), "calls": 0, "deny": None}
+
+
+def deny(path):
+    """listing this folder fails with PermissionError (a folder the user may not read); None switches it off"""
+    install()
+    _state["deny"] = os.path.abspath(path) if path else None
+
+
+def _check_denied(path):
+    d = _state["deny"]
+    if d is not None and not isinstance(path, int) and os.path.abspath(os.fspath(path)) == d:
+        raise PermissionError(13, "Permission denied", os.fspath(path))
 
 
 def _perm(items, key):
@@ -20,6 +32,7 @@ def _perm(items, key):
 
 
 def _listdir(path="."):
+    _check_denied(path)
     return _perm(_real_listdir(path), os.fspath(path) if not isinstance(path, int) else str(path))
 
 
@@ -47,6 +60,7 @@ class _Scan:
 
 
 def _scandir(path="."):
+    _check_denied(path)
     if _state["seed"] is None:
         return _real_scandir(path)
     return _Scan(path)
